@@ -35,18 +35,34 @@ NODEF = ('NODEFAULT',)
 NOANN = ('NOANN',)
 
 
-def build_sig(spec, name):
-    """Real function with the spec's default / annotation expressions evaluated in G."""
+def build_sig(spec, name, carrier='func'):
+    """Signature of a real callable with the spec's default / annotation expressions evaluated in G: a function, or
+    -- carriers without a code object of their own -- a callable instance or a class (signature of __call__ / __init__
+    without self)."""
     from sigtools import signatures
-    key = (spec, name)
+    key = (spec, name, carrier)
     r = _built.get(key)
     if r is None:
         if len(_built) > 20000:
             _built.clear()
-        src = 'def %s(%s):\n    return 0\n' % (name, universe.spec_text(spec))
+        if carrier == 'func':
+            src = 'def %s(%s):\n    return 0\n' % (name, universe.spec_text(spec))
+        else:
+            sp = (Par('self', PO if any(p.kind == PO for p in spec) else POK),) + tuple(spec)
+            meth = '__call__' if carrier == 'instance' else '__init__'
+            src = 'class _K(object):\n    def %s(%s):\n        return None\n%s = _K%s\n' % (
+                meth, universe.spec_text(sp), name, '()' if carrier == 'instance' else '')
         g = realfn.load(src, dict(G), register=False)
         r = _built[key] = signatures.signature(g[name])
     return r
+
+
+def carriers_for(specs):
+    """Deterministic mix: most inputs are functions, some callable instances or classes."""
+    from vlib.framework import stable_hash
+    if any(p.name == 'self' for s in specs for p in s):
+        return ['func'] * len(specs)
+    return [('func', 'func', 'func', 'instance', 'class')[stable_hash([universe.spec_text(s) for s in specs] + [i]) % 5] for i in range(len(specs))]
 
 
 _built = {}
@@ -88,15 +104,18 @@ def expected_annotation(anns):
 def check_merge(specs, stats, enum=False):
     from sigtools import signatures
     stats.case()
-    sigs = [build_sig(s, 'f%d' % i) for i, s in enumerate(specs)]
+    cars = carriers_for(specs)
+    sigs = [build_sig(s, 'f%d' % i, cars[i]) for i, s in enumerate(specs)]
     try:
         r = signatures.merge(*sigs)
     except ValueError:
         stats.cls('merge/raised')
         return
     stats.cls('merge/n=%d' % len(specs))
+    if any(c != 'func' for c in cars):
+        stats.cls('merge/with-codeless-carrier')
     case = {'op': 'merge', 'specs': [list(map(list, s)) for s in specs]}
-    desc = 'merge(%s)' % ', '.join('(%s)' % universe.spec_text(s) for s in specs)
+    desc = 'merge(%s)' % ', '.join('%s(%s)' % ('' if c == 'func' else c + ' ', universe.spec_text(s)) for s, c in zip(specs, cars))
     nontriv = False
     for p in r.parameters.values():
         name, kind, default, ann = pinfo(p)
@@ -356,10 +375,17 @@ def st_renamed():
     def build(draw):
         n = draw(st.integers(1, 3))
         out = []
+        first = draw(st.permutations(['a', 'b', 'c', 'd']))[:n]
         for i in range(2):
-            names = draw(st.permutations(['a', 'b', 'c', 'd']))[:n]
+            if i == 0:
+                names = first
+            else:
+                # at each position: the same name, or a name the other input does not use at all
+                names = [nm if draw(st.booleans()) else fresh for nm, fresh in zip(first, ['x', 'y', 'z'])]
             cut = draw(st.integers(0, n))
-            ps = [Par(nm, PO, draw(st.sampled_from(DEFAULTS[1:])) if k >= cut else None, draw(st.sampled_from(ANNS))) for k, nm in enumerate(names)]
+            npo = draw(st.integers(0, n))       # leading positional-only ones; the rest positional-or-keyword
+            ps = [Par(nm, PO if k < npo else POK, draw(st.sampled_from(DEFAULTS[1:])) if k >= cut else None, draw(st.sampled_from(ANNS)))
+                  for k, nm in enumerate(names)]
             if draw(st.booleans()):
                 ps.append(Par('args', VP))
             out.append(tuple(ps))
